@@ -241,7 +241,13 @@ fn build_wrap(w: &W, id: Id, inner: &Spec) -> P {
         }
         W::Count => p.count().map(|n| V::Int(n as i64)).boxed(),
         W::Last => p.last().boxed(),
-        W::Fallback => p.fallback(V::Tag(id)).boxed(),
+        // a third of the fallbacks show their value in the help (`[default: ..]`), another third
+        // with the Debug rendering: the parser they make is the same
+        W::Fallback => match id % 3 {
+            0 => p.fallback(V::Tag(id)).display_fallback().boxed(),
+            1 => p.fallback(V::Tag(id)).debug_fallback().boxed(),
+            _ => p.fallback(V::Tag(id)).boxed(),
+        },
         W::FallbackWithOk => p
             .fallback_with(move || Ok::<V, String>(V::Tag(id)))
             .boxed(),
